@@ -19,6 +19,9 @@ type RefStore struct {
 	// Enter is called at the entry of every primitive before the lock is taken
 	// (park point in serial mode, per-connection invariants).
 	Enter func(conn *redis.Conn, method string, key string)
+	// Fault, when it returns handled=true, makes the primitive return an injected result instead
+	// (a handler that misbehaves without panicking: nil message, error, oddly typed reply).
+	Fault func(conn *redis.Conn, method string, key string) (msg *redis.Message, err error, handled bool)
 	Calls int
 }
 
@@ -44,6 +47,13 @@ func (r *RefStore) enter(conn *redis.Conn, method, key string) {
 	if r.Enter != nil {
 		r.Enter(conn, method, key)
 	}
+}
+
+func (r *RefStore) fault(conn *redis.Conn, method, key string) (*redis.Message, error, bool) {
+	if r.Fault == nil {
+		return nil, nil, false
+	}
+	return r.Fault(conn, method, key)
 }
 
 func (r *RefStore) db(conn *redis.Conn) map[string]*entry {
@@ -84,6 +94,9 @@ func (r *RefStore) Snapshot(db int, key string) (string, bool) {
 
 func (r *RefStore) Del(conn *redis.Conn, keys []string) (*redis.Message, error) {
 	r.enter(conn, "Del", first1(keys))
+	if m, err, ok := r.fault(conn, "Del", first1(keys)); ok {
+		return m, err
+	}
 	r.mu.Lock()
 	defer r.mu.Unlock()
 	n := 0
@@ -105,6 +118,9 @@ func first1(ss []string) string {
 
 func (r *RefStore) Exists(conn *redis.Conn, keys []string) (*redis.Message, error) {
 	r.enter(conn, "Exists", first1(keys))
+	if m, err, ok := r.fault(conn, "Exists", first1(keys)); ok {
+		return m, err
+	}
 	r.mu.Lock()
 	defer r.mu.Unlock()
 	n := 0
@@ -118,6 +134,9 @@ func (r *RefStore) Exists(conn *redis.Conn, keys []string) (*redis.Message, erro
 
 func (r *RefStore) Expire(conn *redis.Conn, key string, opt redis.ExpireOption) (*redis.Message, error) {
 	r.enter(conn, "Expire", key)
+	if m, err, ok := r.fault(conn, "Expire", key); ok {
+		return m, err
+	}
 	r.mu.Lock()
 	defer r.mu.Unlock()
 	e, ok := r.db(conn)[key]
@@ -130,6 +149,9 @@ func (r *RefStore) Expire(conn *redis.Conn, key string, opt redis.ExpireOption) 
 
 func (r *RefStore) Keys(conn *redis.Conn, pattern string) (*redis.Message, error) {
 	r.enter(conn, "Keys", pattern)
+	if m, err, ok := r.fault(conn, "Keys", pattern); ok {
+		return m, err
+	}
 	r.mu.Lock()
 	defer r.mu.Unlock()
 	var ks []string
@@ -144,6 +166,9 @@ func (r *RefStore) Keys(conn *redis.Conn, pattern string) (*redis.Message, error
 
 func (r *RefStore) Rename(conn *redis.Conn, key string, newkey string, opt redis.RenameOption) (*redis.Message, error) {
 	r.enter(conn, "Rename", key)
+	if m, err, ok := r.fault(conn, "Rename", key); ok {
+		return m, err
+	}
 	r.mu.Lock()
 	defer r.mu.Unlock()
 	d := r.db(conn)
@@ -168,6 +193,9 @@ func (r *RefStore) Rename(conn *redis.Conn, key string, newkey string, opt redis
 
 func (r *RefStore) Type(conn *redis.Conn, key string) (*redis.Message, error) {
 	r.enter(conn, "Type", key)
+	if m, err, ok := r.fault(conn, "Type", key); ok {
+		return m, err
+	}
 	r.mu.Lock()
 	defer r.mu.Unlock()
 	e, ok := r.db(conn)[key]
@@ -179,6 +207,9 @@ func (r *RefStore) Type(conn *redis.Conn, key string) (*redis.Message, error) {
 
 func (r *RefStore) TTL(conn *redis.Conn, key string) (*redis.Message, error) {
 	r.enter(conn, "TTL", key)
+	if m, err, ok := r.fault(conn, "TTL", key); ok {
+		return m, err
+	}
 	r.mu.Lock()
 	defer r.mu.Unlock()
 	e, ok := r.db(conn)[key]
@@ -193,6 +224,9 @@ func (r *RefStore) TTL(conn *redis.Conn, key string) (*redis.Message, error) {
 
 func (r *RefStore) Scan(conn *redis.Conn, cursor int, opt redis.ScanOption) (*redis.Message, error) {
 	r.enter(conn, "Scan", "")
+	if m, err, ok := r.fault(conn, "Scan", ""); ok {
+		return m, err
+	}
 	r.mu.Lock()
 	defer r.mu.Unlock()
 	var ks []string
@@ -210,6 +244,9 @@ func (r *RefStore) Scan(conn *redis.Conn, cursor int, opt redis.ScanOption) (*re
 
 func (r *RefStore) Set(conn *redis.Conn, key string, val string, opt redis.SetOption) (*redis.Message, error) {
 	r.enter(conn, "Set", key)
+	if m, err, ok := r.fault(conn, "Set", key); ok {
+		return m, err
+	}
 	r.mu.Lock()
 	defer r.mu.Unlock()
 	r.Calls++
@@ -247,6 +284,9 @@ func (r *RefStore) Set(conn *redis.Conn, key string, val string, opt redis.SetOp
 
 func (r *RefStore) Get(conn *redis.Conn, key string) (*redis.Message, error) {
 	r.enter(conn, "Get", key)
+	if m, err, ok := r.fault(conn, "Get", key); ok {
+		return m, err
+	}
 	r.mu.Lock()
 	defer r.mu.Unlock()
 	r.Calls++
@@ -262,6 +302,9 @@ func (r *RefStore) Get(conn *redis.Conn, key string) (*redis.Message, error) {
 
 func (r *RefStore) HDel(conn *redis.Conn, key string, fields []string) (*redis.Message, error) {
 	r.enter(conn, "HDel", key)
+	if m, err, ok := r.fault(conn, "HDel", key); ok {
+		return m, err
+	}
 	r.mu.Lock()
 	defer r.mu.Unlock()
 	e, ok, tok := r.get(conn, key, "hash")
@@ -285,6 +328,9 @@ func (r *RefStore) HDel(conn *redis.Conn, key string, fields []string) (*redis.M
 
 func (r *RefStore) HSet(conn *redis.Conn, key string, field string, val string, opt redis.HSetOption) (*redis.Message, error) {
 	r.enter(conn, "HSet", key)
+	if m, err, ok := r.fault(conn, "HSet", key); ok {
+		return m, err
+	}
 	r.mu.Lock()
 	defer r.mu.Unlock()
 	e, ok, tok := r.get(conn, key, "hash")
@@ -308,6 +354,9 @@ func (r *RefStore) HSet(conn *redis.Conn, key string, field string, val string, 
 
 func (r *RefStore) HGet(conn *redis.Conn, key string, field string) (*redis.Message, error) {
 	r.enter(conn, "HGet", key)
+	if m, err, ok := r.fault(conn, "HGet", key); ok {
+		return m, err
+	}
 	r.mu.Lock()
 	defer r.mu.Unlock()
 	e, ok, tok := r.get(conn, key, "hash")
@@ -326,6 +375,9 @@ func (r *RefStore) HGet(conn *redis.Conn, key string, field string) (*redis.Mess
 
 func (r *RefStore) HGetAll(conn *redis.Conn, key string) (*redis.Message, error) {
 	r.enter(conn, "HGetAll", key)
+	if m, err, ok := r.fault(conn, "HGetAll", key); ok {
+		return m, err
+	}
 	r.mu.Lock()
 	defer r.mu.Unlock()
 	e, ok, tok := r.get(conn, key, "hash")
@@ -384,11 +436,17 @@ func (r *RefStore) push(conn *redis.Conn, key string, elements []string, opt red
 
 func (r *RefStore) LPush(conn *redis.Conn, key string, elements []string, opt redis.PushOption) (*redis.Message, error) {
 	r.enter(conn, "LPush", key)
+	if m, err, ok := r.fault(conn, "LPush", key); ok {
+		return m, err
+	}
 	return r.push(conn, key, elements, opt, true)
 }
 
 func (r *RefStore) RPush(conn *redis.Conn, key string, elements []string, opt redis.PushOption) (*redis.Message, error) {
 	r.enter(conn, "RPush", key)
+	if m, err, ok := r.fault(conn, "RPush", key); ok {
+		return m, err
+	}
 	return r.push(conn, key, elements, opt, false)
 }
 
@@ -426,11 +484,17 @@ func (r *RefStore) pop(conn *redis.Conn, key string, count int, left bool) (*red
 
 func (r *RefStore) LPop(conn *redis.Conn, key string, count int) (*redis.Message, error) {
 	r.enter(conn, "LPop", key)
+	if m, err, ok := r.fault(conn, "LPop", key); ok {
+		return m, err
+	}
 	return r.pop(conn, key, count, true)
 }
 
 func (r *RefStore) RPop(conn *redis.Conn, key string, count int) (*redis.Message, error) {
 	r.enter(conn, "RPop", key)
+	if m, err, ok := r.fault(conn, "RPop", key); ok {
+		return m, err
+	}
 	return r.pop(conn, key, count, false)
 }
 
@@ -455,6 +519,9 @@ func clampRange(start, stop, n int) (int, int, bool) {
 
 func (r *RefStore) LRange(conn *redis.Conn, key string, start int, stop int) (*redis.Message, error) {
 	r.enter(conn, "LRange", key)
+	if m, err, ok := r.fault(conn, "LRange", key); ok {
+		return m, err
+	}
 	r.mu.Lock()
 	defer r.mu.Unlock()
 	e, ok := r.list(conn, key, false)
@@ -470,6 +537,9 @@ func (r *RefStore) LRange(conn *redis.Conn, key string, start int, stop int) (*r
 
 func (r *RefStore) LIndex(conn *redis.Conn, key string, index int) (*redis.Message, error) {
 	r.enter(conn, "LIndex", key)
+	if m, err, ok := r.fault(conn, "LIndex", key); ok {
+		return m, err
+	}
 	r.mu.Lock()
 	defer r.mu.Unlock()
 	e, ok := r.list(conn, key, false)
@@ -487,6 +557,9 @@ func (r *RefStore) LIndex(conn *redis.Conn, key string, index int) (*redis.Messa
 
 func (r *RefStore) LLen(conn *redis.Conn, key string) (*redis.Message, error) {
 	r.enter(conn, "LLen", key)
+	if m, err, ok := r.fault(conn, "LLen", key); ok {
+		return m, err
+	}
 	r.mu.Lock()
 	defer r.mu.Unlock()
 	e, ok := r.list(conn, key, false)
@@ -498,6 +571,9 @@ func (r *RefStore) LLen(conn *redis.Conn, key string) (*redis.Message, error) {
 
 func (r *RefStore) SAdd(conn *redis.Conn, key string, members []string) (*redis.Message, error) {
 	r.enter(conn, "SAdd", key)
+	if m, err, ok := r.fault(conn, "SAdd", key); ok {
+		return m, err
+	}
 	r.mu.Lock()
 	defer r.mu.Unlock()
 	e, ok, tok := r.get(conn, key, "set")
@@ -520,6 +596,9 @@ func (r *RefStore) SAdd(conn *redis.Conn, key string, members []string) (*redis.
 
 func (r *RefStore) SMembers(conn *redis.Conn, key string) (*redis.Message, error) {
 	r.enter(conn, "SMembers", key)
+	if m, err, ok := r.fault(conn, "SMembers", key); ok {
+		return m, err
+	}
 	r.mu.Lock()
 	defer r.mu.Unlock()
 	e, ok, tok := r.get(conn, key, "set")
@@ -538,6 +617,9 @@ func (r *RefStore) SMembers(conn *redis.Conn, key string) (*redis.Message, error
 
 func (r *RefStore) SRem(conn *redis.Conn, key string, members []string) (*redis.Message, error) {
 	r.enter(conn, "SRem", key)
+	if m, err, ok := r.fault(conn, "SRem", key); ok {
+		return m, err
+	}
 	r.mu.Lock()
 	defer r.mu.Unlock()
 	e, ok, tok := r.get(conn, key, "set")
@@ -575,6 +657,9 @@ func (r *RefStore) sorted(e *entry) []zmember {
 
 func (r *RefStore) ZAdd(conn *redis.Conn, key string, members []*redis.ZSetMember, opt redis.ZAddOption) (*redis.Message, error) {
 	r.enter(conn, "ZAdd", key)
+	if m, err, ok := r.fault(conn, "ZAdd", key); ok {
+		return m, err
+	}
 	r.mu.Lock()
 	defer r.mu.Unlock()
 	e, ok, tok := r.get(conn, key, "zset")
@@ -642,6 +727,9 @@ func zreply(zs []zmember, opt redis.ZRangeOption) *redis.Message {
 
 func (r *RefStore) ZRange(conn *redis.Conn, key string, start int, stop int, opt redis.ZRangeOption) (*redis.Message, error) {
 	r.enter(conn, "ZRange", key)
+	if m, err, ok := r.fault(conn, "ZRange", key); ok {
+		return m, err
+	}
 	r.mu.Lock()
 	defer r.mu.Unlock()
 	e, ok, tok := r.get(conn, key, "zset")
@@ -666,6 +754,9 @@ func (r *RefStore) ZRange(conn *redis.Conn, key string, start int, stop int, opt
 
 func (r *RefStore) ZRangeByScore(conn *redis.Conn, key string, min float64, max float64, opt redis.ZRangeOption) (*redis.Message, error) {
 	r.enter(conn, "ZRangeByScore", key)
+	if m, err, ok := r.fault(conn, "ZRangeByScore", key); ok {
+		return m, err
+	}
 	r.mu.Lock()
 	defer r.mu.Unlock()
 	e, ok, tok := r.get(conn, key, "zset")
@@ -695,6 +786,9 @@ func (r *RefStore) ZRangeByScore(conn *redis.Conn, key string, min float64, max 
 
 func (r *RefStore) ZRem(conn *redis.Conn, key string, members []string) (*redis.Message, error) {
 	r.enter(conn, "ZRem", key)
+	if m, err, ok := r.fault(conn, "ZRem", key); ok {
+		return m, err
+	}
 	r.mu.Lock()
 	defer r.mu.Unlock()
 	e, ok, tok := r.get(conn, key, "zset")
@@ -718,6 +812,9 @@ func (r *RefStore) ZRem(conn *redis.Conn, key string, members []string) (*redis.
 
 func (r *RefStore) ZScore(conn *redis.Conn, key string, member string) (*redis.Message, error) {
 	r.enter(conn, "ZScore", key)
+	if m, err, ok := r.fault(conn, "ZScore", key); ok {
+		return m, err
+	}
 	r.mu.Lock()
 	defer r.mu.Unlock()
 	e, ok, tok := r.get(conn, key, "zset")
@@ -736,6 +833,9 @@ func (r *RefStore) ZScore(conn *redis.Conn, key string, member string) (*redis.M
 
 func (r *RefStore) ZIncBy(conn *redis.Conn, key string, inc float64, member string) (*redis.Message, error) {
 	r.enter(conn, "ZIncBy", key)
+	if m, err, ok := r.fault(conn, "ZIncBy", key); ok {
+		return m, err
+	}
 	r.mu.Lock()
 	defer r.mu.Unlock()
 	e, ok, tok := r.get(conn, key, "zset")
